@@ -788,7 +788,9 @@ class Scope:
         for k, v in val.items():
           put(target[key], k, v)
       else:
-        target[key] = val
+        # later writes merge into a stored dict in place: never store the
+        # caller's own dict object
+        target[key] = _copy_dicts(val)
 
     put(variables, name, value)
 
@@ -986,6 +988,16 @@ class Scope:
     if key not in self.flags and default is no_flag:
       return ValueError(f'Flag {key} not present on scope.')
     return self.flags.get(key, default)
+
+
+def _copy_dicts(x):
+  """Copies the (nested) dict containers of a value, keeping the leaves."""
+  if isinstance(x, dict):
+    y = x.copy()
+    for k, v in y.items():
+      y[k] = _copy_dicts(v)
+    return y
+  return x
 
 
 def _unfreeze_variables(variables, mutable):
